@@ -210,27 +210,6 @@ def r2_offset_discipline(ctx, sym):
               "an error on file line 4 inside section 1 is located on line 3 by the runtime feedback")
     if ln:
         line_number_provenance(ctx, ux, init, ln, 'R2')
-    if False:
-        # the raw line must be the traceback entry's own line (extract_tb / FrameSummary.lineno / tb_lineno): a frame's
-        # f_lineno is wherever the frame is *now*, which differs once finally/except blocks have run
-        defs_i = {norm(n.targets[0]): n.value for n in body_walk(init) if isinstance(n, ast.Assign)}
-
-        def raw_sources(e, depth=0):
-            out = set()
-            for x in ast.walk(e):
-                if isinstance(x, ast.Attribute) and x.attr in ('f_lineno', 'tb_lineno', 'lineno'):
-                    out.add(x.attr)
-                if isinstance(x, ast.Call) and call_name(x) == 'traceback.extract_tb':
-                    out.add('extract_tb')
-                if isinstance(x, ast.Name) and x.id in defs_i and depth < 4 and defs_i[x.id] is not e:
-                    out |= raw_sources(defs_i[x.id], depth + 1)
-            return out
-        srcs = raw_sources(ln[0].value)
-        ctx.check('f_lineno' not in srcs and bool(srcs & {'extract_tb', 'tb_lineno', 'lineno'}), 'R2',
-                  'traceback:line_number-provenance', ux, ln[0],
-                  "line_number is read from %s: a frame's f_lineno is the line the frame is executing now, not the "
-                  "line that raised (they differ after a finally block or an except ...: raise handler ran)" % sorted(srcs),
-                  "try:\n    x = 1/0\nfinally:\n    cleanup()   -> the runtime feedback is located on the cleanup line")
     okp = any(isinstance(n, ast.Assign) and any(is_self_attr(t, 'line_offsets') for t in n.targets)
               and norm(n.value) == 'line_offsets' for n in body_walk(init))
     ctx.check(okp, 'R2', 'traceback:stores-offsets', ux, init, "line offsets are not kept by the traceback",
